@@ -97,8 +97,12 @@ def elem(v: V) -> V:
             out = v.args[0].ctx.apply_lambda(v.args[0], [elem(v.args[1])])
             if out is not None:
                 return out
-        if v.name == "filter" and len(v.args) == 2:
-            return V("call", "filter", args=[v.args[0], elem(v.args[1])], node=v.node, ctx=v.ctx)
+        if v.name == "map" and len(v.args) >= 2 and v.ctx is not None:
+            out = v.ctx.apply_value(v.args[0], [elem(a) for a in v.args[1:]], v.node)
+            if out is not None:
+                return out
+        if v.name in ("filter", "itertools.filterfalse") and len(v.args) == 2:
+            return V("call", v.name, args=[v.args[0], elem(v.args[1])], node=v.node, ctx=v.ctx)
     return V("elem", recv=v, node=v.node, ctx=v.ctx)
 
 
@@ -107,7 +111,128 @@ def item(v: V, idx, node=None, ctx=None) -> V:
         return alt([item(x, idx, node, ctx) for x in v.parts])
     if v.kind == "elem" and v.recv.kind == "call" and v.recv.recv is None and v.recv.name == "enumerate" and idx == 1 and v.recv.args:
         return elem(v.recv.args[0])
+    if isinstance(idx, int) and not isinstance(idx, bool):
+        els = fixed_elems(v)
+        if els is not None and -len(els) <= idx < len(els):
+            return els[idx]          # element of a tuple / list display (a row of a constant table)
+        if v.kind == "call" and v.recv is None and v.ctx is not None:
+            fv = v.ctx.record_field(v, idx)
+            if fv is not None:
+                return fv
+    if v.kind == "dict" and v.parts:
+        # an entry of a dict display: the one with that constant key, any of them when the key is not known here
+        hits = [x for k, x in v.parts if k.kind == "const" and idx is not None and k.value == idx and type(k.value) is type(idx)]
+        if hits:
+            return hits[-1]
+        if idx is None or not all(k.kind == "const" for k, _x in v.parts):
+            return alt([x for _k, x in v.parts])
     return V("item", recv=v, value=idx, node=node or v.node, ctx=ctx or v.ctx)
+
+
+def unpacked_constant(repo: Repo, modname: str, name: str) -> Optional[ast.AST]:
+    """the value expression of a module-level name that is bound by a tuple assignment `A, B = x, y` (the repository index only knows
+    single-name targets)"""
+    m = repo.mods.get(modname)
+    if m is None:
+        return None
+    found = None
+
+    def pair(t, v):
+        nonlocal found
+        if isinstance(t, ast.Name) and t.id == name:
+            found = v
+        elif isinstance(t, (ast.Tuple, ast.List)) and isinstance(v, (ast.Tuple, ast.List)) and len(t.elts) == len(v.elts) and \
+                not any(isinstance(x, ast.Starred) for x in list(t.elts) + list(v.elts)):
+            for a, b in zip(t.elts, v.elts):
+                pair(a, b)
+
+    for st in m.tree.body:
+        if isinstance(st, ast.Assign):
+            for t in st.targets:
+                if isinstance(t, (ast.Tuple, ast.List)):
+                    pair(t, st.value)
+    return found
+
+
+def record_fields(repo: Repo, modname: str, cname: str):
+    """(ClassInfo, is NamedTuple) when the name denotes a record class of the repository: a NamedTuple / dataclass with annotated
+    fields and no __init__ / __new__ / attribute hooks of its own; None otherwise"""
+    r = repo.lookup(modname, cname) if cname.isidentifier() else None
+    if r is None or r[0] != "class":
+        return None
+    ci = next((c for c in repo.classes.values() if c.node is r[1]), None)
+    if ci is None or {"__init__", "__new__", "__post_init__", "__getattr__", "__getattribute__"} & set(ci.methods):
+        return None
+    named = any(b.split(".")[-1] == "NamedTuple" for b in ci.bases)
+    data = any((isinstance(d, ast.Name) and d.id == "dataclass") or (isinstance(d, ast.Attribute) and d.attr == "dataclass") or
+               (isinstance(d, ast.Call) and ((isinstance(d.func, ast.Name) and d.func.id == "dataclass") or (isinstance(d.func, ast.Attribute) and d.func.attr == "dataclass")))
+               for d in ci.node.decorator_list)
+    if not (named or (data and not ci.bases)) or not ci.fields:
+        return None
+    return ci, named
+
+
+def strip_record_trips(repo: Repo, modname: str, path: tuple) -> tuple:
+    """a provenance path without the round trips through record helpers: (.., 'kw:f:R' | 'arg<i>:R', 'attr:f' | 'item:<i>' | 'unpack:<i>', ..)
+    -- a value put into field f of record R and read back from it -- is the value itself"""
+    out = list(path)
+    i = 0
+    while i + 1 < len(out):
+        a, b = out[i], out[i + 1]
+        parts = a.split(":")
+        field = None
+        if len(parts) == 3 and parts[0] == "kw":
+            rf = record_fields(repo, modname, parts[2])
+            if rf is not None and parts[1] in rf[0].fields:
+                field, names, named = parts[1], list(rf[0].fields), rf[1]
+        elif len(parts) == 2 and parts[0].startswith("arg") and parts[0][3:].isdigit():
+            rf = record_fields(repo, modname, parts[1])
+            if rf is not None and int(parts[0][3:]) < len(rf[0].fields):
+                names, named = list(rf[0].fields), rf[1]
+                field = names[int(parts[0][3:])]
+        if field is not None and (b == f"attr:{field}" or (named and b in (f"item:{names.index(field)}", f"unpack:{names.index(field)}"))):
+            del out[i:i + 2]
+            i = max(i - 1, 0)
+            continue
+        i += 1
+    return tuple(out)
+
+
+def fixed_elems(v: V) -> Optional[List[V]]:
+    """the elements, in order, of a sequence whose length and order are fixed by the source text: a tuple / list display without
+    starred parts (nothing appended later: a name with later additions evaluates to a coll with 'many' parts), a constant string,
+    the items / keys / values of a dict display, zip / list / tuple / reversed / enumerate of those; None otherwise"""
+    if v.kind == "coll" and isinstance(v.node, (ast.List, ast.Tuple)) and all(m == "one" for m, _x, _s in v.parts):
+        return [x for _m, x, _s in v.parts]
+    if v.kind == "coll" and isinstance(v.node, (ast.ListComp, ast.GeneratorExp)) and v.ctx is not None and v.value is not None:
+        return v.ctx.expand_comp(v)
+    if v.kind == "const" and isinstance(v.value, str):
+        return [V("const", value=c, node=v.node, ctx=v.ctx) for c in v.value]
+    if v.kind == "dict":
+        return [k for k, _x in v.parts]
+    if v.kind == "call" and v.recv is not None and v.recv.kind == "dict" and not v.args and v.name in ("items", "keys", "values"):
+        if v.name == "items":
+            return [V("coll", parts=[("one", k, None), ("one", x, None)], node=ast.Tuple(elts=[], ctx=ast.Load()), ctx=v.ctx) for k, x in v.recv.parts]
+        return [k if v.name == "keys" else x for k, x in v.recv.parts]
+    if v.kind == "call" and v.recv is None and not v.kw:
+        if v.name in ("list", "tuple", "iter") and len(v.args) == 1:
+            return fixed_elems(v.args[0])
+        if v.name == "reversed" and len(v.args) == 1:
+            els = fixed_elems(v.args[0])
+            return els[::-1] if els is not None else None
+        if v.name == "zip" and v.args:
+            cols = [fixed_elems(a) for a in v.args]
+            if all(c is not None for c in cols):
+                return [V("coll", parts=[("one", x, None) for x in row], node=ast.Tuple(elts=[], ctx=ast.Load()), ctx=v.ctx) for row in zip(*cols)]
+        if v.name == "enumerate" and len(v.args) == 1:
+            els = fixed_elems(v.args[0])
+            if els is not None:
+                return [V("coll", parts=[("one", V("const", value=i, ctx=v.ctx), None), ("one", x, None)], node=ast.Tuple(elts=[], ctx=ast.Load()), ctx=v.ctx)
+                        for i, x in enumerate(els)]
+    return None
+
+
+_SKIP = object()
 
 
 class Flow:
@@ -125,6 +250,8 @@ class Flow:
         self.env = env or {}
         self.stack = stack
         self.lenv: Dict[str, V] = {}
+        self.cbind: Dict[int, Dict[str, V]] = {}      # id(comprehension generator) -> values of its target names while it is expanded
+        self.over: Dict[Tuple[str, int], Tuple[object, int]] = {}     # (name, def node) -> (value | _SKIP, loop head) while a loop is unrolled
         self.modname = modname if f is None else f.mod.name
         self.cls = cls if f is None else f.cls
         if f is not None:
@@ -253,7 +380,7 @@ class Flow:
                     return ca
             if base.kind == "leaf" and base.name.startswith("global:"):
                 return self._leaf(base.name + "." + e.attr, e)
-            return V("attr", e.attr, recv=base, node=e, ctx=self)
+            return self._attr(base, e.attr, e)
         if isinstance(e, ast.Subscript):
             base = T(e.value)
             sl = e.slice
@@ -279,7 +406,7 @@ class Flow:
         if isinstance(e, (ast.List, ast.Tuple, ast.Set)):
             return V("coll", parts=[("many", T(x.value), x) if isinstance(x, ast.Starred) else ("one", T(x), x) for x in e.elts], node=e, ctx=self)
         if isinstance(e, (ast.ListComp, ast.SetComp, ast.GeneratorExp)):
-            return V("coll", parts=[("one", T(e.elt), e)], node=e, ctx=self)
+            return V("coll", parts=[("one", T(e.elt), e)], node=e, ctx=self, value=(at, seen, depth))
         if isinstance(e, ast.Dict) and all(k is not None for k in e.keys):
             return V("dict", parts=[(T(k), T(v)) for k, v in zip(e.keys, e.values)], node=e, ctx=self)
         if isinstance(e, ast.Lambda):
@@ -322,17 +449,25 @@ class Flow:
     def _name(self, e: ast.Name, at, seen, depth) -> V:
         name = e.id
         if self.f is None or at is None:
+            if name in self.lenv:
+                return self.lenv[name]
             return self._global(name, e, depth)
         cb = self.p._comp_binding(e)
         if cb == "lambda":
             return self.lenv.get(name) or self._leaf(f"param:lambda.{name}", e)
         if cb is not None:
+            b = self.cbind.get(id(cb))
+            if b is not None and name in b:
+                return b[name]
             return self._unpack(cb.target, name, elem(self._value(cb.iter, at, seen, depth + 1)))
         return self._name_at(name, at, seen, depth, e)
 
     def _global(self, name: str, node, depth) -> V:
         r = self.repo.lookup(self.modname, name)
         if r is None:
+            uc = unpacked_constant(self.repo, self.modname, name) if depth <= 40 else None
+            if uc is not None:
+                return Flow(self.repo, None, home=self.home, modname=self.modname)._value(uc, None, frozenset(), depth + 1)
             return self._leaf(f"builtin:{name}" if name not in ("str", "re") else f"global:{name}", node)
         if r[0] == "const":
             if depth > 40:
@@ -340,6 +475,10 @@ class Flow:
             return Flow(self.repo, None, home=self.home, modname=r[2])._value(r[1], None, frozenset(), depth + 1)
         if r[0] == "class":
             return self._leaf(f"class:{name}", node)
+        if r[0] == "func":
+            leaf = self._leaf(f"global:{name}", node)
+            leaf.value = next((x for x in self.repo.funcs.values() if x.node is r[1]), None)
+            return leaf
         if r[0] == "module":
             return self._leaf(f"global:{r[1]}", node)
         if r[0] == "external":
@@ -353,46 +492,17 @@ class Flow:
         if not defs:
             return self._global(name, node, depth)
         defs = self._live(name, at, defs)
-        outs: List[V] = []
-        for d in sorted(defs):
-            key = (name, d)
-            if key in seen:
-                continue
-            s2 = seen | {key}
-            if d == self.g.entry:
-                outs.append(self.env[name] if name in self.env else self._leaf(f"param:{name}", node))
-                continue
-            st = self.g.stmt[d]
-            ev = lambda x: self._value(x, d, s2, depth + 1)
-            if isinstance(st, ast.Assign):
-                for t in st.targets:
-                    if name in C.target_names(t):
-                        paired = self.p._paired(t, st.value, name)
-                        outs.append(ev(paired) if paired is not None else self._unpack(t, name, ev(st.value)))
-            elif isinstance(st, ast.AnnAssign) and st.value is not None:
-                outs.append(ev(st.value))
-            elif isinstance(st, ast.AugAssign):
-                prev = self._name_at(name, d, s2, depth + 1, node)
-                new = ev(st.value)
-                outs.append(V("coll", parts=[("many", prev, st), ("many", new, st)], node=st, ctx=self) if isinstance(st.op, (ast.Add, ast.BitOr)) else
-                            V("binop", type(st.op).__name__, parts=[prev, new], node=st, ctx=self))
-            elif isinstance(st, ast.For):
-                outs.append(self._unpack(st.target, name, elem(ev(st.iter))))
-            elif isinstance(st, ast.With):
-                for it in st.items:
-                    if it.optional_vars is not None and name in C.target_names(it.optional_vars):
-                        outs.append(ev(it.context_expr))
-            else:
-                h = C.header(st)
-                found = False
-                if h is not None:
-                    for n in ast.walk(h):
-                        if isinstance(n, ast.NamedExpr) and name in C.target_names(n.target):
-                            outs.append(ev(n.value))
-                            found = True
-                if not found:
-                    outs.append(self._leaf(f"unknown:def@{type(st).__name__}", node))
-        base = alt(outs) if outs else V("alt", parts=[])
+        base = self._unrolled(name, at, defs, seen, depth, node)
+        if base is None:
+            outs: List[V] = []
+            for d in sorted(defs):
+                ov = self.over.get((name, d)) if self.over else None
+                if ov is not None and self._inside(at, ov[1]):
+                    if ov[0] is not _SKIP:
+                        outs.append(ov[0])
+                    continue
+                outs.extend(self._def_value(name, d, seen, depth, node))
+            base = alt(outs) if outs else V("alt", parts=[])
         ckey = ("content", name)
         if name in self._content and ckey not in seen and not (self.f.is_method and name == self.f.self_name):
             parts = [("many", base, node)]
@@ -409,6 +519,138 @@ class Flow:
             if len(parts) > 1:
                 return V("coll", parts=parts, node=node, ctx=self)
         return base
+
+    def _def_value(self, name: str, d: int, seen, depth, node) -> List[V]:
+        """the value(s) the definition at CFG node d gives to the name"""
+        key = (name, d)
+        if key in seen:
+            return []
+        s2 = seen | {key}
+        if d == self.g.entry:
+            return [self.env[name] if name in self.env else self._leaf(f"param:{name}", node)]
+        outs: List[V] = []
+        st = self.g.stmt[d]
+        ev = lambda x: self._value(x, d, s2, depth + 1)
+        if isinstance(st, ast.Assign):
+            for t in st.targets:
+                if name in C.target_names(t):
+                    paired = self.p._paired(t, st.value, name)
+                    outs.append(ev(paired) if paired is not None else self._unpack(t, name, ev(st.value)))
+        elif isinstance(st, ast.AnnAssign) and st.value is not None:
+            outs.append(ev(st.value))
+        elif isinstance(st, ast.AugAssign):
+            prev = self._name_at(name, d, s2, depth + 1, node)
+            new = ev(st.value)
+            outs.append(V("coll", parts=[("many", prev, st), ("many", new, st)], node=st, ctx=self) if isinstance(st.op, (ast.Add, ast.BitOr)) else
+                        V("binop", type(st.op).__name__, parts=[prev, new], node=st, ctx=self))
+        elif isinstance(st, ast.For):
+            outs.append(self._unpack(st.target, name, elem(ev(st.iter))))
+        elif isinstance(st, ast.With):
+            for it in st.items:
+                if it.optional_vars is not None and name in C.target_names(it.optional_vars):
+                    outs.append(ev(it.context_expr))
+        else:
+            h = C.header(st)
+            found = False
+            if h is not None:
+                for n in ast.walk(h):
+                    if isinstance(n, ast.NamedExpr) and name in C.target_names(n.target):
+                        outs.append(ev(n.value))
+                        found = True
+            if not found:
+                outs.append(self._leaf(f"unknown:def@{type(st).__name__}", node))
+        return outs
+
+    def _inside(self, n: int, head: int) -> bool:
+        cur = self.g.loop_of.get(n)
+        while cur is not None:
+            if cur == head:
+                return True
+            cur = self.g.loop_of.get(cur)
+        return False
+
+    def _unrolled(self, name: str, at: int, defs: set, seen, depth, node) -> Optional[V]:
+        """`x = x0; for T in <sequence fixed by the source text>: x = F(x, T)` read after the loop: F(...F(F(x0, t1), t2)..., tn).
+        Applies when exactly one definition of the name that reaches `at` lies in a for loop that does not contain `at`, that
+        definition is a statement of the loop body itself (every iteration executes it: no break / continue in the loop) and the
+        iterable's elements are known (fixed_elems).  None: not this shape (the caller falls back to the union of the definitions)."""
+        g = self.g
+        inner = [d for d in defs if d != g.entry and g.loop_of.get(d) is not None]
+        cand = []
+        for d in inner:
+            head, cur = None, g.loop_of.get(d)
+            while cur is not None:
+                if not self._inside(at, cur) and at != cur:
+                    head = cur
+                cur = g.loop_of.get(cur)
+            if head is not None:
+                cand.append((d, head))
+        if len(cand) != 1 or depth > 40:
+            return None
+        d, head = cand[0]
+        loop = g.stmt[head]
+        if ("unroll", head, name) in seen or not isinstance(loop, ast.For) or loop.orelse or name in C.target_names(loop.target):
+            return None
+        if not any(g.stmt[d] is s_ for s_ in loop.body) or not isinstance(g.stmt[d], (ast.Assign, ast.AnnAssign, ast.AugAssign)):
+            return None
+        stack = list(loop.body)
+        while stack:
+            n = stack.pop()
+            if isinstance(n, (ast.Break, ast.Continue)):
+                return None
+            if isinstance(n, (ast.For, ast.While, ast.AsyncFor)):
+                stack.extend(n.orelse)      # break / continue inside belong to the inner loop
+                continue
+            if isinstance(n, (ast.FunctionDef, ast.AsyncFunctionDef, ast.ClassDef, ast.Lambda)):
+                continue
+            stack.extend(ast.iter_child_nodes(n))
+        # (a definition of the name elsewhere in the loop body would have to be killed by d to stay invisible: then it is harmless)
+        s2 = seen | {("unroll", head, name)}
+        els = fixed_elems(self._value(loop.iter, head, s2, depth + 1))
+        if els is None or len(els) > 16:
+            return None
+        outside = [o for o in defs if o != d]
+        if not outside:
+            return None
+        # every other definition that reaches `at` does so through the loop (it is the loop's incoming value, not a later one)
+        for o in outside:
+            todo, done = [m for m, _l in g.succ[o] if m != head], set()
+            while todo:
+                m = todo.pop()
+                if m in done:
+                    continue
+                done.add(m)
+                if m == at:
+                    return None
+                todo.extend(x for x, _l in g.succ[m] if x != head and x not in done)
+        v0: List[V] = []
+        for o in sorted(outside):
+            ov = self.over.get((name, o)) if self.over else None
+            if ov is not None and self._inside(at, ov[1]):
+                if ov[0] is not _SKIP:
+                    v0.append(ov[0])
+                continue
+            v0.extend(self._def_value(name, o, s2, depth + 1, node))
+        if not v0:
+            return None
+        v = alt(v0)
+        tnames = C.target_names(loop.target)
+        for e_i in els:
+            old = self.over
+            self.over = dict(old)
+            self.over[(name, d)] = (v, head)
+            for o in outside:
+                self.over[(name, o)] = (_SKIP, head)
+            for tn in tnames:
+                self.over[(tn, head)] = (self._unpack(loop.target, tn, e_i), head)
+            try:
+                outs = self._def_value(name, d, s2, depth + 1, node)
+            finally:
+                self.over = old
+            if not outs:
+                return None
+            v = alt(outs)
+        return v
 
     def _live(self, name: str, at: int, defs: set) -> set:
         """the definitions that reach `at` along a path that the valuation allows"""
@@ -438,10 +680,26 @@ class Flow:
     def _call(self, e: ast.Call, at, seen, depth) -> V:
         T = lambda x: self._value(x, at, seen, depth + 1)
         fn = e.func
-        args = [elem(T(a.value)) if isinstance(a, ast.Starred) else T(a) for a in e.args]
+        args: List[V] = []
+        for a in e.args:
+            if isinstance(a, ast.Starred):
+                sv = T(a.value)
+                els = fixed_elems(sv)
+                args.extend(els if els is not None else [elem(sv)])      # f(*pair): the elements of a tuple display are the arguments
+            else:
+                args.append(T(a))
         kw = {k.arg: T(k.value) for k in e.keywords if k.arg}
         cn = self.canon(fn, at)
         if cn is not None:
+            if cn == "functools.reduce" and len(args) == 3 and not kw:
+                # reduce(F, <sequence fixed by the source text>, x0) = F(...F(F(x0, t1), t2)..., tn)
+                els = fixed_elems(args[1])
+                if els is not None and len(els) <= 16:
+                    acc: Optional[V] = args[2]
+                    for e_i in els:
+                        acc = self.apply_value(args[0], [acc, e_i], e) if acc is not None else None
+                    if acc is not None:
+                        return acc
             if cn in ("list", "tuple", "deque", "set", "dict") and not args:
                 return V("coll", parts=[], node=e, ctx=self)
             if cn in ("ord", "chr") and len(args) == 1 and args[0].kind == "const":
@@ -458,30 +716,156 @@ class Flow:
             if out is not None:
                 return out
         if isinstance(fn, ast.Attribute):
-            recv = T(fn.value)
-            # <compiled pattern>.sub(repl, s) == re.sub(pattern, repl, s, flags)
-            comps = [x for x in (recv.parts if recv.kind == "alt" else [recv]) if x.kind == "call" and x.recv is None and x.name == "re.compile"]
-            if comps and fn.attr in RE_METHODS and len(comps) == len(recv.parts if recv.kind == "alt" else [recv]):
-                outs = []
-                for c in comps:
-                    pat = c.args[0] if c.args else c.kw.get("pattern")
-                    flags = c.args[1] if len(c.args) > 1 else c.kw.get("flags")
-                    k2 = dict(kw)
-                    if flags is not None:
-                        k2["flags"] = flags
-                    k2["__compiled__"] = V("const", value=True)
-                    outs.append(V("call", "re." + fn.attr, args=[pat] + args, kw=k2, node=e, ctx=self))
-                return alt(outs)
-            ok, tmpl = const_of(recv)
-            if ok and isinstance(tmpl, str) and fn.attr == "format" and all(a.kind == "const" for a in args) and all(v.kind == "const" for v in kw.values()):
-                try:
-                    return V("const", value=tmpl.format(*[a.value for a in args], **{k: v.value for k, v in kw.items()}), node=e, ctx=self)
-                except Exception:
-                    pass
-            return V("call", fn.attr, recv=recv, args=args, kw=kw, node=e, ctx=self)
+            return self._method_call(T(fn.value), fn.attr, args, kw, e)
+        if isinstance(fn, (ast.Name, ast.Subscript, ast.Call)):
+            # a function value: a name bound to methodcaller(..) / partial(..) / a lambda / a function, an entry of a dispatch table
+            out = self.apply_value(T(fn), args, e, kw)
+            if out is not None:
+                return out
         if isinstance(fn, ast.Name):
             return V("call", fn.id, args=args, kw=kw, node=e, ctx=self)
         return self._leaf("unknown:call", e)
+
+    def _method_call(self, recv: V, attr: str, args: List[V], kw: Dict[str, V], e: ast.AST) -> V:
+        # <compiled pattern>.sub(repl, s) == re.sub(pattern, repl, s, flags)
+        comps = [x for x in (recv.parts if recv.kind == "alt" else [recv]) if x.kind == "call" and x.recv is None and x.name == "re.compile"]
+        if comps and attr in RE_METHODS and len(comps) == len(recv.parts if recv.kind == "alt" else [recv]):
+            outs = []
+            for c in comps:
+                pat = c.args[0] if c.args else c.kw.get("pattern")
+                flags = c.args[1] if len(c.args) > 1 else c.kw.get("flags")
+                k2 = dict(kw)
+                if flags is not None:
+                    k2["flags"] = flags
+                k2["__compiled__"] = V("const", value=True)
+                outs.append(V("call", "re." + attr, args=[pat] + args, kw=k2, node=e, ctx=self))
+            return alt(outs)
+        ok, tmpl = const_of(recv)
+        if ok and isinstance(tmpl, str) and attr == "format" and all(a.kind == "const" for a in args) and all(v.kind == "const" for v in kw.values()):
+            try:
+                return V("const", value=tmpl.format(*[a.value for a in args], **{k: v.value for k, v in kw.items()}), node=e, ctx=self)
+            except Exception:
+                pass
+        if ok and isinstance(tmpl, str) and attr == "join" and len(args) == 1 and not kw:
+            els = fixed_elems(args[0])
+            if els is not None and all(x.kind == "const" and isinstance(x.value, str) for x in els):
+                return V("const", value=tmpl.join(x.value for x in els), node=e, ctx=self)
+        return V("call", attr, recv=recv, args=args, kw=kw, node=e, ctx=self)
+
+    def _attr(self, base: V, attr: str, node: ast.AST) -> V:
+        if base.kind == "alt":
+            return alt([self._attr(x, attr, node) for x in base.parts])
+        if base.kind == "call" and base.recv is None:
+            fv = self.record_field(base, attr)
+            if fv is not None:
+                return fv
+        return V("attr", attr, recv=base, node=node, ctx=self)
+
+    def record_field(self, call: V, field) -> Optional[V]:
+        """R(a, b).x / R(a, b)[i] for a record class of the repository (NamedTuple / dataclass: annotated fields, no __init__ /
+        __new__ of its own): the constructor argument that fills the field"""
+        ctx = call.ctx if call.ctx is not None else self
+        rf = record_fields(self.repo, ctx.modname, call.name)
+        if rf is None:
+            return None
+        ci, named = rf
+        names = list(ci.fields)
+        if isinstance(field, int):
+            if not named or not -len(names) <= field < len(names):
+                return None
+            field = names[field]
+        if field not in names or field in ci.methods:
+            return None
+        i = names.index(field)
+        if field in call.kw:
+            return call.kw[field]
+        if i < len(call.args):
+            return call.args[i]
+        return self._class_attr(ci.name, field)
+
+    def expand_comp(self, v: V) -> Optional[List[V]]:
+        """the elements of `[E(t) for t in <sequence fixed by the source text>]`, in order"""
+        node = v.node
+        at, seen, depth = v.value
+        if len(node.generators) != 1 or depth > 40:
+            return None
+        gen = node.generators[0]
+        if gen.ifs or gen.is_async:
+            return None
+        els = fixed_elems(self._value(gen.iter, at, seen, depth + 1))
+        if els is None or len(els) > 16:
+            return None
+        out: List[V] = []
+        names = C.target_names(gen.target)
+        for e_i in els:
+            binding = {tn: self._unpack(gen.target, tn, e_i) for tn in names}
+            old_l, old_c = self.lenv, self.cbind.get(id(gen))
+            if self.f is None or at is None:
+                self.lenv = dict(old_l, **binding)
+            else:
+                self.cbind[id(gen)] = binding
+            try:
+                out.append(self._value(node.elt, at, seen, depth + 1))
+            finally:
+                self.lenv = old_l
+                if old_c is None:
+                    self.cbind.pop(id(gen), None)
+                else:
+                    self.cbind[id(gen)] = old_c
+        return out
+
+    def apply_value(self, fv: V, args: List[V], node: ast.AST, kw: Optional[Dict[str, V]] = None, depth: int = 0) -> Optional[V]:
+        """the result of calling a function VALUE with the given arguments: a lambda, str.<method>, a function / method of the
+        repository, <compiled pattern>.<method>, operator.methodcaller / attrgetter / itemgetter (..), functools.partial(..), an
+        entry of a dict display selected by a constant key; None when the value is not understood as a function"""
+        kw = kw or {}
+        if depth > 6:
+            return None
+        if fv.kind == "alt" and fv.parts:
+            outs = [self.apply_value(x, args, node, kw, depth + 1) for x in fv.parts]
+            return None if any(o is None for o in outs) else alt(outs)
+        if fv.kind == "lambda" and fv.ctx is not None and not kw:
+            return fv.ctx.apply_lambda(fv, args)
+        if fv.kind == "leaf":
+            if fv.name.startswith("global:str.") and args and not kw:
+                return self._method_call(args[0], fv.name[len("global:str."):], args[1:], {}, node)
+            fi = fv.value if isinstance(fv.value, FuncInfo) else None
+            if fi is not None and not fi.is_method and isinstance(node, ast.Call):
+                return self._apply(fi, node, None, args, kw, depth)
+            if fv.name.startswith("global:") and not fv.name.startswith("global:str.") and fi is None:
+                name = fv.name[len("global:"):]
+                return V("call", SHORT.get(name, name), args=args, kw=kw, node=node, ctx=self)
+            return None
+        if fv.kind == "selfattr" and self.cls is not None and isinstance(node, ast.Call):
+            fi = self.repo.find_method(self.cls, fv.name)
+            if fi is not None:
+                return self._apply(fi, node, self._leaf("self", node), args, kw, depth)
+            return None
+        if fv.kind == "attr":
+            return self._method_call(fv.recv, fv.name, args, kw, node)
+        if fv.kind == "call" and fv.recv is not None and fv.recv.kind == "dict" and fv.name == "get" and 1 <= len(fv.args) <= 2 and fv.recv.parts:
+            # TABLE.get(key[, default])(..): the entry with that constant key / any entry or the default
+            ok, key = const_of(fv.args[0])
+            hits = [x for k, x in fv.recv.parts if ok and k.kind == "const" and k.value == key and type(k.value) is type(key)]
+            cands = hits[-1:] if hits else [x for _k, x in fv.recv.parts] + fv.args[1:]
+            outs = [self.apply_value(x, args, node, kw, depth + 1) for x in cands]
+            return None if any(o is None for o in outs) else alt(outs)
+        if fv.kind == "call" and fv.recv is None:
+            if fv.name == "operator.methodcaller" and fv.args and len(args) == 1 and not kw:
+                ok, m = const_of(fv.args[0])
+                if ok and isinstance(m, str):
+                    return self._method_call(args[0], m, fv.args[1:], fv.kw, node)
+            if fv.name == "operator.attrgetter" and len(fv.args) == 1 and len(args) == 1 and not kw:
+                ok, m = const_of(fv.args[0])
+                if ok and isinstance(m, str) and m.isidentifier():
+                    return self._attr(args[0], m, node)
+            if fv.name == "operator.itemgetter" and len(fv.args) == 1 and len(args) == 1 and not kw:
+                ok, m = const_of(fv.args[0])
+                if ok:
+                    return item(args[0], m, node, self)
+            if fv.name == "functools.partial" and fv.args:
+                return self.apply_value(fv.args[0], fv.args[1:] + args, node, dict(fv.kw, **kw), depth + 1)
+        return None
 
     def _repo_target(self, call: ast.Call) -> Optional[FuncInfo]:
         if self.f is None:
@@ -562,7 +946,7 @@ class Op:
 
 # which argument of a canonical function call carries the data that flows on (None: the first one)
 DATA_ARG = {"re.sub": (2, "string"), "re.subn": (2, "string"), "re.findall": (1, "string"), "re.finditer": (1, "string"), "re.split": (1, "string"),
-            "re.match": (1, "string"), "re.search": (1, "string"), "re.fullmatch": (1, "string"), "map": (1, None), "filter": (1, None)}
+            "re.match": (1, "string"), "re.search": (1, "string"), "re.fullmatch": (1, "string"), "map": (1, None), "filter": (1, None), "itertools.filterfalse": (1, None)}
 
 
 def chains(v: V, resolve_attr: Callable[[str], Optional[V]], limit: int = 200) -> List[List[Op]]:
